@@ -14,6 +14,8 @@ let sess_prop check nontrivial = { tag = "sess"; check; cross_header = Sess.sess
   cross_footer = Sess.sess_cross_footer; nontrivial }
 
 let props : (string * prop) list = [
+  "C17", { tag = "c17"; check = P_c17.check; cross_header = P_c17.cross_header;
+           cross_footer = P_c17.cross_footer; nontrivial = P_c17.nontrivial };
   "SESS", sess_prop P_sess.check P_sess.nontrivial;
   "C20", { tag = "c20"; check = P_c20.check; cross_header = P_c20.cross_header;
            cross_footer = P_c20.cross_footer; nontrivial = P_c20.nontrivial };
